@@ -141,13 +141,16 @@ func (d *DeadlineChan[T]) Recv() (b T, err error) {
 	default:
 		break
 	}
+	verifYield("DeadlineChan.Recv.polled")
 
 	if d.closed.Load() {
 		err = io.EOF
 		return
 	}
+	verifYield("DeadlineChan.Recv.checked")
 
 	errChan := d.deadline.Done()
+	verifYield("DeadlineChan.Recv.done")
 	select {
 	case <-errChan:
 		err = d.deadline.Err()
@@ -173,8 +176,10 @@ func (d *DeadlineChan[T]) Send(b T) (err error) {
 	if d.closed.Load() {
 		return io.EOF
 	}
+	verifYield("DeadlineChan.Send.checked")
 
 	errChan := d.deadline.Done()
+	verifYield("DeadlineChan.Send.done")
 	select {
 	case <-errChan:
 		err = d.deadline.Err()
@@ -195,6 +200,7 @@ func (d *DeadlineChan[T]) SetDeadline(t time.Time) error {
 	if d.closed.Load() {
 		return io.EOF
 	}
+	verifYield("DeadlineChan.SetDeadline.checked")
 	return d.deadline.SetDeadline(t)
 }
 
@@ -204,6 +210,7 @@ func (d *DeadlineChan[T]) Cancel(err error) error {
 	if d.closed.Load() {
 		return io.EOF
 	}
+	verifYield("DeadlineChan.Cancel.checked")
 	d.deadline.Cancel(err)
 	return nil
 }
@@ -218,6 +225,7 @@ func (d *DeadlineChan[T]) Close() error {
 		return io.EOF
 	}
 	d.closed.Store(true)
+	verifYield("DeadlineChan.Close.flagged")
 	d.deadline.Cancel(io.EOF)
 	return nil
 }
